@@ -131,6 +131,7 @@ type Engine struct {
 	MaxPaths   int
 	Trace      bool
 	Hooks      *Hooks
+	AllocHook  func(ps *PathState, fr *frame, instr *ssa.Alloc, addr *value)
 
 	// Workers > 1 explores paths in parallel (each worker its own solver
 	// handle from NewSolver); paths are independent re-executions.
@@ -410,6 +411,16 @@ func (ps *PathState) flushAsserts() {
 // Run explores every path of fn(args...). mkArgs is called once per path so
 // that argument values are rebuilt (they may contain mutable cells).
 func (e *Engine) Run(fn *ssa.Function, mkArgs func(ps *PathState) []value, onPath func(ps *PathState, res *PathResult)) []PathResult {
+	return e.explore(fn, mkArgs, nil, onPath, e.Workers)
+}
+
+// runValue explores the paths of a function value (function or closure)
+// sequentially; before is called at the start of every path.
+func (e *Engine) runValue(fnv value, fn *ssa.Function, mkArgs func(ps *PathState) []value, before func(ps *PathState), onPath func(ps *PathState, res *PathResult)) []PathResult {
+	return e.explore(fnv, mkArgs, before, onPath, 1)
+}
+
+func (e *Engine) explore(fn value, mkArgs func(ps *PathState) []value, before func(ps *PathState), onPath func(ps *PathState, res *PathResult), workers int) []PathResult {
 	t0 := time.Now()
 	defer func() { e.Elapsed += time.Since(t0) }()
 	if e.Unsupported == nil {
@@ -421,7 +432,6 @@ func (e *Engine) Run(fn *ssa.Function, mkArgs func(ps *PathState) []value, onPat
 	if e.MaxSteps == 0 {
 		e.MaxSteps = 2_000_000
 	}
-	workers := e.Workers
 	if workers < 1 || e.NewSolver == nil {
 		workers = 1
 	}
@@ -467,6 +477,9 @@ func (e *Engine) Run(fn *ssa.Function, mkArgs func(ps *PathState) []value, onPat
 				if sol != nil {
 					sol.Push()
 				}
+				if before != nil {
+					before(ps)
+				}
 				res := e.runPath(ps, fn, mkArgs)
 				if onPath != nil {
 					onPath(ps, &res)
@@ -497,7 +510,7 @@ func lessDecisions(a, b []Decision) bool {
 	return len(a) < len(b)
 }
 
-func (e *Engine) runPath(ps *PathState, fn *ssa.Function, mkArgs func(ps *PathState) []value) (res PathResult) {
+func (e *Engine) runPath(ps *PathState, fn value, mkArgs func(ps *PathState) []value) (res PathResult) {
 	i := newInterpreter(e, ps)
 	ps.interp = i
 	res.Outcome = "ok"
